@@ -130,6 +130,17 @@ def main():
                 "the same model plus seeded random ones, replayed on the real store with probes after every step; "
                 "every recorded trace is validated by TLC against the observer spec",
     }
+    # what the self-test (seeded changes from independent sub-agents, /verif/seeded) recorded for this property
+    seeded = []
+    sd = os.path.join(os.path.dirname(CACHE), "seeded")
+    if os.path.isdir(sd):
+        for d in sorted(os.listdir(sd)):
+            mp = os.path.join(sd, d, "meta.json")
+            if os.path.exists(mp):
+                m = json.load(open(mp))
+                if m.get("property") == prop or prop in (m.get("caught_by") or []):
+                    seeded.append({"seed": d, "breaks": m.get("property"), "caught_by": m.get("caught_by")})
+    cov["seeded_changes"] = seeded
     assumptions = [a for g in PROP_GROUPS[prop] for a in ASSUME.get(g, [])]
     write_evidence(prop, tier, seed, cov, time.time() - t0, len(viols), assumptions)
     if viols:
